@@ -1,13 +1,346 @@
 import Tbx.Model.Search
 import Tbx.Spec.Reach
-namespace Tbx.Props.C15
-open Tbx
+import Tbx.Proofs.SearchBasic
+import Tbx.Proofs.SearchComplete
+import Tbx.Proofs.SearchSound
+/-
+C15 — BFS and DFS decide reachability exactly and return valid (BFS: shortest) paths.
 
-/-- the judge's reachability test is exact once the ball is closed -/
+Property theorems only (helper lemmas live in Tbx/Proofs/Search*.lean).  Registered in Tbx/Audit/C15.lean.
+All theorems are about `Search.runWith pop …`, the model of `run_with_filter` of BOTH bfs.rs
+(`pop = popFront`) and dfs.rs (`pop = popBack`); unless stated otherwise they hold for every pop
+discipline that returns a member of the worklist and keeps the others (`PopOK`).
+-/
+namespace Tbx.Props.C15
+open Tbx Tbx.Search
+
+/-- the object's source and target sets are disjoint (the property's precondition) -/
+def DisjointST (sr : Searcher) : Prop := ∀ v, v ∈ sr.sources → gt sr.targetSet v = false
+
+/-- the two disciplines used by the Rust are admissible -/
+theorem disciplines_ok : PopOK popFront ∧ PopOK popBack := ⟨popFront_ok, popBack_ok⟩
+
+/-! ### the judge's checkers mean what the Spec says -/
+
 theorem judge_reach_sound (g : Reach.Graph) (filt : Nat → Bool) (srcs tgts : List Nat) (k : Nat)
     (hc : Reach.closedB g filt (Reach.ball g filt srcs k) = true) :
     Reach.anyTargetIn (Reach.ball g filt srcs k) tgts = true ↔
       ∃ t, t ∈ tgts ∧ Reach.Reachable g filt (· ∈ srcs) t :=
   Reach.anyTargetIn_iff g filt srcs tgts k hc
+
+theorem judge_path_sound (g : Reach.Graph) (filt : Nat → Bool) (srcs tgts p : List Nat) :
+    Reach.validPathB g filt srcs tgts p = true ↔ Reach.ValidPath g filt (· ∈ srcs) (· ∈ tgts) p :=
+  Reach.validPathB_iff g filt srcs tgts p
+
+theorem judge_edges_sound (g : Reach.Graph) (p es : List Nat) :
+    Reach.edgesJoinB g p es = true ↔ Reach.EdgesJoin g p es :=
+  Reach.edgesJoinB_iff g p es
+
+theorem judge_shortest_sound (g : Reach.Graph) (filt : Nat → Bool) (srcs tgts : List Nat) (h : Nat) :
+    Reach.noShorterB g filt srcs tgts h = true ↔ Reach.NoShorter g filt (· ∈ srcs) (· ∈ tgts) h :=
+  Reach.noShorterB_iff g filt srcs tgts h
+
+/-- non-vacuity of the judge theorems: on the unit-test graph of bfs.rs the ball of radius 6 is closed, node 5
+    is reachable from 0, `0,1,5` is a valid path joined by edges 0 and 3, and nothing shorter exists -/
+def utGraph : Reach.Graph := fun u =>
+  match u with
+  | 0 => [(1, 0), (4, 1)] | 1 => [(2, 2), (5, 3)] | 2 => [(3, 4)] | 4 => [(2, 5), (5, 6)] | 5 => [(3, 7)] | _ => []
+
+example : Reach.closedB utGraph (fun _ => false) (Reach.ball utGraph (fun _ => false) [0] 6) = true ∧
+    Reach.anyTargetIn (Reach.ball utGraph (fun _ => false) [0] 6) [5] = true ∧
+    Reach.validPathB utGraph (fun _ => false) [0] [5] [0, 1, 5] = true ∧
+    Reach.edgesJoinB utGraph [0, 1, 5] [0, 3] = true ∧
+    Reach.noShorterB utGraph (fun _ => false) [0] [5] 2 = true := by decide
+
+/-! ### found ⇔ reachable -/
+
+/-- P0 `found_complete` (any pop discipline): `false` ⇒ no target is reachable from any source through
+    unfiltered edges -/
+theorem found_complete (pop : List Nat → Option (Nat × List Nat)) (hp : PopOK pop) (g : Graph)
+    (filt : Nat → Bool) (sr sr' : Searcher) (hd : DisjointST sr)
+    (h : runWith pop g filt sr = .ok (false, sr')) :
+    ∀ v, Reach.Reachable g filt (· ∈ sr.sources) v → gt sr.targetSet v = false := by
+  unfold runWith at h
+  split at h
+  · cases h
+  · rename_i par hpar
+    split at h
+    · cases h
+    · cases h
+    · simp at h
+    · rename_i s' hl
+      intro v hv
+      exact (loop_none_complete g filt (gt sr.targetSet) (· ∈ sr.sources) pop hp _ _ s'
+        (init_CInv g filt _ sr par hpar) (fun v hs => (init_marked sr par hpar v).mpr hs) hd hl v hv).2
+
+/-- what a successful run with a non-empty target set leaves behind: `target` is a target and the parents
+    vector contains a tree path from a source to it -/
+theorem found_tree (pop : List Nat → Option (Nat × List Nat)) (hp : PopOK pop) (g : Graph)
+    (filt : Nat → Bool) (sr sr' : Searcher) (he : sr.emptyTargets = false)
+    (h : runWith pop g filt sr = .ok (true, sr')) :
+    ∃ t l, sr'.target = some t ∧ gt sr.targetSet t = true ∧
+      Tree g filt (· ∈ sr.sources) (gt sr'.parents) t l := by
+  unfold runWith at h
+  split at h
+  · cases h
+  · rename_i par hpar
+    split at h
+    · cases h
+    · cases h
+    · rename_i t s' hl
+      simp only [Res.ok.injEq, Prod.mk.injEq, true_and] at h
+      subst h
+      obtain ⟨ht, hT⟩ := loop_sound g filt (gt sr.targetSet) (· ∈ sr.sources) pop hp _ _ s' (some t)
+        (init_SInv g filt sr par hpar) hl
+      obtain ⟨hTt, hm⟩ := hT t rfl
+      obtain ⟨l, hl'⟩ := ht t hm
+      exact ⟨t, l, rfl, hTt, hl'⟩
+    · simp only [Res.ok.injEq, Prod.mk.injEq] at h
+      rw [he] at h
+      exact absurd h.1 (by simp)
+
+/-- P0 `found_sound` (any pop discipline): `true` with a non-empty target set ⇒ the parent chain from `target`,
+    as returned by `fetch_node_path`, is a simple path from a source along existing unfiltered edges ending in
+    a target -/
+theorem found_sound (pop : List Nat → Option (Nat × List Nat)) (hp : PopOK pop) (g : Graph)
+    (filt : Nat → Bool) (sr sr' : Searcher) (he : sr.emptyTargets = false)
+    (h : runWith pop g filt sr = .ok (true, sr')) :
+    ∃ t p, sr'.target = some t ∧ nodePath sr' = some p ∧ p.getLast? = some t ∧
+      Reach.ValidPath g filt (· ∈ sr.sources) (fun v => gt sr.targetSet v = true) p := by
+  obtain ⟨t, l, h1, h2, h3⟩ := found_tree pop hp g filt sr sr' he h
+  refine ⟨t, l, h1, ?_, h3.last, h3.valid h2⟩
+  unfold nodePath nodePathFrom
+  rw [h1]
+  simpa using nodePathLoop_tree h3 (sr'.parents.size + 1) [] (by have := h3.length_le; omega)
+
+/-- P0 `paths_coherent`: after a successful run with a non-empty target set the three views agree: the iterator
+    yields the node path in reverse, and the edge path has one edge per hop, edge `i` leading from node `i` to
+    node `i+1` of the node path -/
+theorem paths_coherent (pop : List Nat → Option (Nat × List Nat)) (hp : PopOK pop) (g : Graph)
+    (filt : Nat → Bool) (sr sr' : Searcher) (he : sr.emptyTargets = false)
+    (h : runWith pop g filt sr = .ok (true, sr')) :
+    ∃ p es, nodePath sr' = some p ∧ pathIter sr' = some p.reverse ∧ edgePath g sr' = some es ∧
+      Reach.EdgesJoin g p es := by
+  obtain ⟨t, l, h1, _, h3⟩ := found_tree pop hp g filt sr sr' he h
+  have hlen := h3.length_le
+  obtain ⟨es, he1, he2⟩ := edgePathLoop_tree h3 (sr'.parents.size + 1) [] (by omega)
+  refine ⟨l, es, ?_, ?_, ?_, he2⟩
+  · unfold nodePath nodePathFrom
+    rw [h1]
+    simpa using nodePathLoop_tree h3 (sr'.parents.size + 1) [] (by omega)
+  · unfold pathIter
+    rw [h1]
+    exact iterLoop_tree h3 (sr'.parents.size + 2) (by omega)
+  · unfold edgePath
+    rw [h1]
+    simpa using he1
+
+/-- P0 `empty_targets`: with an empty target set every run that does not panic reports `true` -/
+theorem empty_targets (pop : List Nat → Option (Nat × List Nat)) (g : Graph)
+    (filt : Nat → Bool) (sr sr' : Searcher) (b : Bool) (he : sr.emptyTargets = true)
+    (h : runWith pop g filt sr = .ok (b, sr')) : b = true := by
+  unfold runWith at h
+  split at h
+  · cases h
+  · split at h
+    · cases h
+    · cases h
+    · simp only [Res.ok.injEq, Prod.mk.injEq] at h; exact h.1.symm
+    · simp only [Res.ok.injEq, Prod.mk.injEq] at h; rw [← h.1]; exact he
+
+/-- … and (used by the min-cut sweep of the max-flow slices) with an empty target LIST the marked set is exactly
+    the set of nodes reachable from the sources through unfiltered edges -/
+theorem empty_targets_closure (pop : List Nat → Option (Nat × List Nat)) (hp : PopOK pop) (g : Graph)
+    (filt : Nat → Bool) (srcs : List Nat) (n : Nat) (sr sr' : Searcher) (b : Bool)
+    (hn : new srcs [] n = some sr) (h : runWith pop g filt sr = .ok (b, sr')) :
+    ∀ v, marked sr'.parents v ↔ Reach.Reachable g filt (· ∈ srcs) v := by
+  obtain ⟨e1, _, _, _, e5, _, _⟩ := new_spec srcs [] n sr hn
+  have hT : ∀ v, gt sr.targetSet v = false := by
+    intro v
+    cases hv : gt sr.targetSet v with
+    | false => rfl
+    | true => exact absurd ((e5 v).mp hv) (by simp)
+  unfold runWith at h
+  split at h
+  · cases h
+  · rename_i par hpar
+    split at h
+    · cases h
+    · cases h
+    · rename_i t s' hl
+      obtain ⟨_, hTt⟩ := loop_sound g filt (gt sr.targetSet) (· ∈ sr.sources) pop hp _ _ s' (some t)
+        (init_SInv g filt sr par hpar) hl
+      have := (hTt t rfl).1
+      rw [hT t] at this
+      cases this
+    · rename_i s' hl
+      simp only [Res.ok.injEq, Prod.mk.injEq] at h
+      obtain ⟨_, rfl⟩ := h
+      intro v
+      rw [← e1]
+      constructor
+      · intro hm
+        obtain ⟨ht, _⟩ := loop_sound g filt (gt sr.targetSet) (· ∈ sr.sources) pop hp _ _ s' none
+          (init_SInv g filt sr par hpar) hl
+        obtain ⟨l, hl'⟩ := ht v hm
+        exact hl'.reachable
+      · intro hr
+        exact (loop_none_complete g filt (gt sr.targetSet) (· ∈ sr.sources) pop hp _ _ s'
+          (init_CInv g filt _ sr par hpar) (fun v hs => (init_marked sr par hpar v).mpr hs)
+          (fun v _ => hT v) hl v hr).1
+
+/-- headline: on a fresh object over disjoint lists, the flag is `true` iff the target list is empty or some
+    target is reachable from some source through unfiltered edges (any pop discipline, so BFS and DFS) -/
+theorem search_decides (pop : List Nat → Option (Nat × List Nat)) (hp : PopOK pop) (g : Graph)
+    (filt : Nat → Bool) (srcs tgts : List Nat) (n : Nat) (sr sr' : Searcher) (b : Bool)
+    (hn : new srcs tgts n = some sr) (hdis : ∀ v, v ∈ srcs → v ∉ tgts)
+    (h : runWith pop g filt sr = .ok (b, sr')) :
+    b = true ↔ (tgts = [] ∨ ∃ t, t ∈ tgts ∧ Reach.Reachable g filt (· ∈ srcs) t) := by
+  obtain ⟨e1, e2, _, _, e5, _, _⟩ := new_spec srcs tgts n sr hn
+  have hd : DisjointST sr := by
+    intro v hv
+    rw [e1] at hv
+    cases hq : gt sr.targetSet v with
+    | false => rfl
+    | true => exact absurd ((e5 v).mp hq) (hdis v hv)
+  constructor
+  · intro hb
+    subst hb
+    cases het : sr.emptyTargets with
+    | true =>
+      left
+      rw [e2] at het
+      simpa using het
+    | false =>
+      right
+      obtain ⟨t, l, _, h2, h3⟩ := found_tree pop hp g filt sr sr' het h
+      refine ⟨t, (e5 t).mp h2, ?_⟩
+      rw [← e1]; exact h3.reachable
+  · intro hor
+    cases hb : b with
+    | true => rfl
+    | false =>
+      subst hb
+      have hc := found_complete pop hp g filt sr sr' hd h
+      rcases hor with h1 | ⟨t, ht, hr⟩
+      · subst h1
+        have := empty_targets pop g filt sr sr' false (by rw [e2]; rfl) h
+        cases this
+      · rw [← e1] at hr
+        have := hc t hr
+        rw [(e5 t).mpr ht] at this
+        cases this
+
+/-! ### runs on one object are independent of earlier runs -/
+
+/-- the part of a result that later observations can see -/
+def view (r : Res (Bool × Searcher)) : Res (Bool × Array (Option Nat) × List Nat) :=
+  match r with
+  | .panic => .panic
+  | .fuel => .fuel
+  | .ok (b, s) => .ok (b, s.parents, s.wl)
+
+/-- the fields `run_with_filter` reads before overwriting them -/
+def SameConfig (a b : Searcher) : Prop :=
+  a.sources = b.sources ∧ a.targetSet = b.targetSet ∧ a.emptyTargets = b.emptyTargets ∧
+  a.parents.size = b.parents.size
+
+/-- P0 `runs_independent` (one step): `run_with_filter` resets the worklist and the parents, so flag, parents and
+    worklist depend only on (graph, filter, sources, targets, number of nodes); and whenever a target was
+    discovered the `target` field (hence all three path views) is the same, too -/
+theorem runs_independent (pop : List Nat → Option (Nat × List Nat)) (g : Graph) (filt : Nat → Bool)
+    (a b : Searcher) (hc : SameConfig a b) :
+    view (runWith pop g filt a) = view (runWith pop g filt b) ∧
+    (∀ a' b', runWith pop g filt a = .ok (true, a') → runWith pop g filt b = .ok (true, b') →
+       a.emptyTargets = false →
+       a'.target = b'.target ∧ nodePath a' = nodePath b' ∧ edgePath g a' = edgePath g b' ∧
+       pathIter a' = pathIter b') := by
+  obtain ⟨c1, c2, c3, c4⟩ := hc
+  have hr : resetParents a = resetParents b := by unfold resetParents; rw [c1, c4]
+  have hf : runFuel a = runFuel b := by unfold runFuel; rw [c1, c4]
+  constructor
+  · unfold runWith
+    rw [hr, hf, c1, c2, c3]
+    cases resetParents b with
+    | none => rfl
+    | some par =>
+      simp only
+      cases loop g filt (gt b.targetSet) pop (runFuel b) { par := par, wl := b.sources } with
+      | panic => rfl
+      | fuel => rfl
+      | done r s' => cases r <;> rfl
+  · intro a' b' ha hb he
+    unfold runWith at ha hb
+    rw [hr, hf, c1, c2] at ha
+    cases hrp : resetParents b with
+    | none => rw [hrp] at hb; cases hb
+    | some par =>
+      rw [hrp] at ha hb
+      simp only at ha hb
+      cases hl : loop g filt (gt b.targetSet) pop (runFuel b) { par := par, wl := b.sources } with
+      | panic => rw [hl] at hb; cases hb
+      | fuel => rw [hl] at hb; cases hb
+      | done r s' =>
+        rw [hl] at ha hb
+        cases r with
+        | none =>
+          simp only [Res.ok.injEq, Prod.mk.injEq] at ha
+          rw [he] at ha
+          exact absurd ha.1 (by simp)
+        | some t =>
+          simp only [Res.ok.injEq, Prod.mk.injEq, true_and] at ha hb
+          subst ha; subst hb
+          simp [nodePath, edgePath, pathIter]
+
+/-- `run_with_filter` does not change what the next run reads -/
+theorem run_keeps_config (pop : List Nat → Option (Nat × List Nat)) (g : Graph) (filt : Nat → Bool)
+    (a a' : Searcher) (b : Bool) (h : runWith pop g filt a = .ok (b, a')) : SameConfig a' a := by
+  unfold runWith at h
+  split at h
+  · cases h
+  · rename_i par hpar
+    have hps := (resetParents_spec a par hpar).1
+    split at h
+    · cases h
+    · cases h
+    · rename_i t s' hl
+      simp only [Res.ok.injEq, Prod.mk.injEq] at h
+      obtain ⟨_, rfl⟩ := h
+      refine ⟨rfl, rfl, rfl, ?_⟩
+      simp only
+      rw [loop_size g filt _ pop _ _ s' _ hl]; exact hps
+    · rename_i s' hl
+      simp only [Res.ok.injEq, Prod.mk.injEq] at h
+      obtain ⟨_, rfl⟩ := h
+      refine ⟨rfl, rfl, rfl, ?_⟩
+      simp only
+      rw [loop_size g filt _ pop _ _ s' _ hl]; exact hps
+
+/-- any history of earlier successful runs (with arbitrary graphs, filters and disciplines) -/
+inductive After (a : Searcher) : Searcher → Prop where
+  | refl : After a a
+  | step (pop : List Nat → Option (Nat × List Nat)) (g : Graph) (filt : Nat → Bool) (x y : Searcher) (b : Bool) :
+      After a x → runWith pop g filt x = .ok (b, y) → After a y
+
+/-- P0 `runs_independent` (histories): after any sequence of earlier runs on one object, the next run gives what
+    it gives on the object before those runs (in particular: on a fresh object) -/
+theorem runs_independent_history (a x : Searcher) (hx : After a x)
+    (pop : List Nat → Option (Nat × List Nat)) (g : Graph) (filt : Nat → Bool) :
+    view (runWith pop g filt x) = view (runWith pop g filt a) ∧
+    (∀ x' a', runWith pop g filt x = .ok (true, x') → runWith pop g filt a = .ok (true, a') →
+       a.emptyTargets = false →
+       nodePath x' = nodePath a' ∧ edgePath g x' = edgePath g a' ∧ pathIter x' = pathIter a') := by
+  have hc : SameConfig x a := by
+    induction hx with
+    | refl => exact ⟨rfl, rfl, rfl, rfl⟩
+    | step pop' g' filt' x y b _ hrun ih =>
+      obtain ⟨k1, k2, k3, k4⟩ := run_keeps_config pop' g' filt' x y b hrun
+      obtain ⟨i1, i2, i3, i4⟩ := ih
+      exact ⟨k1.trans i1, k2.trans i2, k3.trans i3, k4.trans i4⟩
+  obtain ⟨h1, h2⟩ := runs_independent pop g filt x a hc
+  refine ⟨h1, ?_⟩
+  intro x' a' hxr har he
+  have := h2 x' a' hxr har (by rw [hc.2.2.1]; exact he)
+  exact this.2
 
 end Tbx.Props.C15
